@@ -289,6 +289,9 @@ func (m *locker) try(ctx context.Context, cancel context.CancelFunc, name string
 				}
 			}
 		}
+		if errors.Is(err, ErrLockerClosed) {
+			cancel() // every key is about to be released: end the lock context before the first one goes
+		}
 		if !errors.Is(err, ErrNotLocked) {
 			_ = m.script(context.Background(), delkey, key, val, deadline)
 		}
